@@ -10,7 +10,7 @@ REGISTRATION = {
             "sizes, alignments): declared offsets are aligned and the tensor's bytes are found there "
             "(bytes_at_declared_offset); full decoder round trip decode(encode kvs ts) = written keys/values + parameter "
             "count, tensor infos with reversed shapes and declared offsets, aligned data start, end offset = file length "
-            "(decode_encode; keys given in key order and distinct, lengths/counts below 2^63); create's ggufLayers takes such a file as exactly one layer, the uploaded blob itself (create_takes_written_file_whole). Model = code is checked byte-for-byte on thousands of generated files per run, and the "
+            "(decode_encode_any_key_order: keys in any order and distinct — the writer's key sort is in the model —, lengths/counts below 2^63); create's ggufLayers takes such a file as exactly one layer, the uploaded blob itself (create_takes_written_file_whole). Model = code is checked byte-for-byte on thousands of generated files per run, and the "
             "property predicate is evaluated on the real decoder's view of the real writer's file.",
     "design_ref": "DESIGN.md §5 C05",
     "note": COMMON_NOTE + "Modelled, not verified: the tensor sort (any permutation is covered by the theorem; "
@@ -22,6 +22,7 @@ MODULES = ["OllamaVerif.Properties.C05", "OllamaVerif.Tie.C05"]
 THEOREMS = [
     "OllamaVerif.C05.bytes_at_declared_offset",
     "OllamaVerif.C05.decode_encode",
+    "OllamaVerif.C05.decode_encode_any_key_order",
     "OllamaVerif.C05.end_offset_is_file_length",
     "OllamaVerif.C05.create_takes_written_file_whole",
     "OllamaVerif.Gguf.tensorSize_reverse",
